@@ -22,7 +22,9 @@ MANIFEST = dict(
           "observed by ASan only (leaks are not checked)"),
     technique="Lean 4 proof over executable model + differential correspondence (C harness vs compiled Lean driver) + python RFC 7386 oracle")
 MODULE = "IwModel.Props.C16"
-THEOREMS = []
+THEOREMS = ["IwModel.C16.merge_rfc", "IwModel.C16.merge_rfc_absent", "IwModel.C16.merge_nonobject_replaces",
+            "IwModel.C16.merge_members", "IwModel.C16.merge_entry_points", "IwModel.C16.merge_patch_root",
+            "IwModel.C16.merge_path", "IwModel.C16.merge_path_root"]
 
 BIN = ("jbl", "jbljbl")
 MODES = ["node", "heap", "njson", "auto", "jbl", "jbljbl"]
